@@ -42,7 +42,7 @@ Fixpoint sels_strictM (fuel : nat) (C : cfg) (S : schema) (frs : list fragdef) (
           forallb (fun f =>
             field_strict C S nested tn f &&
             match fn_sub f, schema_field_type S tn (fn_name f) with
-            | Some sub, Ok t => sels_strictM g C S frs true (base_name t) sub
+            | Some sub, Ok t => strict_sub (sels_strictM g C S frs true) S (base_name t) sub
             | _, _ => true
             end) fns &&
           forallb (fun m => match lookup_frag frs m with
@@ -185,21 +185,22 @@ Section MixS.
       + apply IH. intros n Hn. specialize (H n Hn). inversion H; subst. assumption.
   Qed.
 
-  Theorem mixS_main : forall g gs fuel pub cn tn sels tv top nested out pub' k l N,
-    fuel <= F -> parse_type_def fuel C S frs pub cn tn sels false [] tv = Ok (out, pub', false) ->
+  Theorem mixS_main : forall g gs fuel pub cn tn sels at_ tv top nested out pub' k l N,
+    fuel <= F -> parse_type_def fuel C S frs pub cn tn sels at_ [] tv = Ok (out, pub', false) ->
     sels_okM g true C S frs top nested tn tn sels = true -> sels_strictM gs C S frs nested tn sels = true ->
+    (at_ = true -> has_typename sels = true) ->
     tv = (if nested then Some [tn] else None) -> table_ok cls out ->
     collect k S frs tn false sels = Some l -> incl l N -> ambS N ->
     class_goodS g cn tn N l.
   Proof.
     induction g as [|g IH];
-      intros gs fuel pub cn tn sels tv top nested out pub' k l N HF Hp Hok Hst Htv Htab Hcol HlN Hamb;
+      intros gs fuel pub cn tn sels at_ tv top nested out pub' k l N HF Hp Hok Hst Hat Htv Htab Hcol HlN Hamb;
       [discriminate Hok|].
     destruct (sels_okM_inv _ _ _ _ _ _ _ _ _ _ Hok) as [g' [fns [ms [Eg [Hfl [_ [Hfields [Hmix Hreach]]]]]]]].
     inversion Eg; subst g'. clear Eg.
     destruct (sels_strictM_inv _ _ _ _ _ _ _ _ _ _ Hst Hfl) as [gs' [Egs [Hstf Hstm]]]. subst gs.
     destruct fuel as [|fuel']; [discriminate Hp|].
-    destruct (level_invM _ _ _ _ _ _ _ _ _ _ _ _ _ _ _ _ Hp Hfl ltac:(discriminate))
+    destruct (level_invM _ _ _ _ _ _ _ _ _ _ _ _ _ _ _ _ Hp Hfl Hat)
       as [f2 [pfl [extra [kept [Ef [Hrun [Hkept [Hrem Hout]]]]]]]].
     destruct Hamb as [HkN HpyN].
     destruct (flattenM_collect_mix _ _ _ _ _ _ _ _ _ _ Hfl Hcol) as [Hown Hmixn].
@@ -222,7 +223,8 @@ Section MixS.
       destruct (Hmixn m Hm) as [fm' [k' [lm [Elf' [Hcm Hilm]]]]].
       unfold lookup_frag in Elf'. rewrite Elf in Elf'. inversion Elf'; subst fm'.
       exists fm, k', lm. split; [reflexivity|]. split; [exact Hcm|]. split; [exact Hilm|].
-      eapply (IH gs' F [] (pascal_s m) tn (fr_sel fm) None false false outm pubm k' lm N); eauto.
+      eapply (IH gs' F [] (pascal_s m) tn (fr_sel fm) false None false false outm pubm k' lm N); eauto;
+        try discriminate.
       - apply (table_of_incl cls G1 G3), Hinm.
       - eapply incl_tran; eauto.
       - split; auto. }
@@ -234,8 +236,10 @@ Section MixS.
     assert (HFF : Forall2 (fun f pf => forall n', n' >= F + Datatypes.S g + 1 ->
                                          field_facts_rev C S frs (Wn n') tn f pf) fns pfl).
     { apply Forall2_forall. intros n' Hn'. destruct n' as [|n1]; [lia|].
-      eapply (level_facts_rev C S frs fuel' g cls (Wn (Datatypes.S n1))
-                              (sels_okM g true C S frs true true) (sels_strictM gs' C S frs true));
+      eapply level_facts_rev with (W := Wn (Datatypes.S n1)) (mro := mro_fields n1 cls)
+                                  (ok := sels_okM g true C S frs true true)
+                                  (strict := sels_strictM gs' C S frs true)
+                                  (fuel' := fuel') (g := g) (cs := cls);
         try eassumption.
       - apply Wn_opt.
       - apply Wn_list.
@@ -249,15 +253,18 @@ Section MixS.
         apply String.eqb_eq in H. congruence.
       - intros c j H. unfold Wn in H. apply andb_true_iff in H as [H _]. simpl in H.
         destruct j; try discriminate H. eauto.
+      - intros alts j H. unfold Wn in *. apply acc_cov_union, H.
+      - intros c fs Hlc Hnc Hbc Hm. eapply mro_some_simple; eauto.
+      - eauto.
       - (* nested classes *)
-        intros pb cn2 tn2 sels2 out2 pub2 kv2 P1 P2 P3 P4 P5.
+        intros pb cn2 tn2 sels2 at2 out2 pub2 kv2 P1 P2 P3 P3' P4 P5.
         unfold Wn in P5. apply andb_true_iff in P5 as [P5 P6].
         change (class_accepts (accepts n1 cls (schema_enums S)) (mro_fields n1 cls cn2) (JObj kv2) = true) in P5.
         change (class_covers (covers n1 cls) (mro_fields n1 cls cn2) (JObj kv2) = true) in P6.
         destruct (sels_okM_inv _ _ _ _ _ _ _ _ _ _ P2) as [g'' [fns2 [ms2 [_ [_ [Htop2 _]]]]]].
         destruct (Htop2 eq_refl) as [l2 [Hc2 [Hk2 Hpy2]]].
         assert (Hgood : class_goodS g cn2 tn2 l2 l2).
-        { eapply (IH gs' fuel' pb cn2 tn2 sels2 (Some [tn2]) true true out2 pub2 g'' l2 l2); eauto.
+        { eapply (IH gs' fuel' pb cn2 tn2 sels2 at2 (Some [tn2]) true true out2 pub2 g'' l2 l2); eauto.
           - lia.
           - apply incl_refl.
           - split; [exact Hk2 | apply Hpy2; reflexivity]. }
@@ -359,8 +366,9 @@ Proof.
   change (class_accepts (accepts n' cls (schema_enums S)) (mro_fields n' cls (pascal_s name)) (JObj kv) = true) in Hacc.
   change (class_covers (covers n' cls) (mro_fields n' cls (pascal_s name)) (JObj kv) = true) in Hcov.
   assert (Hgood : class_goodS C S frs F cls g (pascal_s name) root l l).
-  { eapply (mixS_main C S frs F cls Hnd Hnb G2 HF1 g gs F [] (pascal_s name) root sels None true false
+  { eapply (mixS_main C S frs F cls Hnd Hnb G2 HF1 g gs F [] (pascal_s name) root sels false None true false
                       own pub' g' l l); eauto.
+    - discriminate.
     - apply (table_of_incl cls Hnd Hnb), Hown.
     - apply incl_refl.
     - split; [exact Hk | apply Hpy; reflexivity]. }
